@@ -10,7 +10,10 @@ The plain ``spake2`` package stays importable for replay.
 """
 import ast, sys, os, importlib, importlib.abc, importlib.machinery, importlib.util, builtins
 
-REPO_SRC = os.environ.get("SPAKE2_VERIF_SRC", "/repo/src/spake2")
+# the tree under test: /repo unless SPAKE2_VERIF_TREE names another checkout (used only for experiments on scratch
+# worktrees; the registered commands always run against /repo)
+TREE = os.environ.get("SPAKE2_VERIF_TREE", "/repo")
+REPO_SRC = os.path.join(TREE, "src", "spake2")
 ALIAS = "spk"
 ENTERED = set()
 
